@@ -38,10 +38,58 @@ type Pool struct {
 	Env     []string
 	N       int
 	Recycle int // restart a worker after this many jobs (0: never)
+	procs   []*wproc
+}
+
+type wproc struct {
+	cmd    *exec.Cmd
+	in     io.WriteCloser
+	rd     *bufio.Reader
+	stderr *bytes.Buffer
+	done   int
+}
+
+func (p *Pool) start() (*wproc, error) {
+	cmd := exec.Command(p.Bin, p.Args...)
+	cmd.Env = append(os.Environ(), p.Env...)
+	w := &wproc{cmd: cmd, stderr: &bytes.Buffer{}}
+	cmd.Stderr = w.stderr
+	w.in, _ = cmd.StdinPipe()
+	outp, _ := cmd.StdoutPipe()
+	if err := cmd.Start(); err != nil {
+		return nil, err
+	}
+	w.rd = bufio.NewReaderSize(outp, 1<<20)
+	return w, nil
+}
+
+func (w *wproc) stop() error {
+	w.in.Close()
+	io.Copy(io.Discard, w.rd)
+	return w.cmd.Wait()
+}
+
+// Close ends every worker process of the pool.
+func (p *Pool) Close() {
+	for _, w := range p.procs {
+		if w != nil {
+			w.in.Close()
+		}
+	}
+	var wg sync.WaitGroup
+	for _, w := range p.procs {
+		if w != nil {
+			wg.Add(1)
+			go func(w *wproc) { defer wg.Done(); io.Copy(io.Discard, w.rd); w.cmd.Wait() }(w)
+		}
+	}
+	wg.Wait()
+	p.procs = nil
 }
 
 // Map runs every job on the pool and calls handle (serially) for each result.
-// Jobs whose worker died are reported as crashes; the pool keeps going.
+// Jobs whose worker died are reported as crashes; the pool keeps going. Worker
+// processes stay alive between calls until Close.
 func (p *Pool) Map(jobs []json.RawMessage, handle func(i int, res json.RawMessage)) []Crash {
 	var mu sync.Mutex
 	var crashes []Crash
@@ -55,6 +103,9 @@ func (p *Pool) Map(jobs []json.RawMessage, handle func(i int, res json.RawMessag
 		next++
 		return next - 1
 	}
+	if len(p.procs) < p.N {
+		p.procs = append(p.procs, make([]*wproc, p.N-len(p.procs))...)
+	}
 	var wg sync.WaitGroup
 	n := p.N
 	if n > len(jobs) {
@@ -62,76 +113,61 @@ func (p *Pool) Map(jobs []json.RawMessage, handle func(i int, res json.RawMessag
 	}
 	for w := 0; w < n; w++ {
 		wg.Add(1)
-		go func() {
+		go func(slot int) {
 			defer wg.Done()
 			for {
 				i := take()
 				if i < 0 {
 					return
 				}
-				// (re)start a worker and feed it jobs until it has to be recycled or dies
-				cmd := exec.Command(p.Bin, p.Args...)
-				cmd.Env = append(os.Environ(), p.Env...)
-				var stderr bytes.Buffer
-				cmd.Stderr = &stderr
-				in, _ := cmd.StdinPipe()
-				outp, _ := cmd.StdoutPipe()
-				if err := cmd.Start(); err != nil {
+				wp := p.procs[slot]
+				if wp == nil {
+					var err error
+					wp, err = p.start()
+					if err != nil {
+						mu.Lock()
+						crashes = append(crashes, Crash{Job: i, Err: "start: " + err.Error()})
+						mu.Unlock()
+						return
+					}
+					p.procs[slot] = wp
+				}
+				b, _ := json.Marshal(jobMsg{ID: i, Job: jobs[i]})
+				_, werr := wp.in.Write(append(b, '\n'))
+				var line []byte
+				var rerr error
+				if werr == nil {
+					line, rerr = wp.rd.ReadBytes('\n')
+				}
+				if werr != nil || rerr != nil {
+					err := wp.stop()
+					tail := wp.stderr.String()
+					if len(tail) > 6000 {
+						tail = tail[len(tail)-6000:]
+					}
 					mu.Lock()
-					crashes = append(crashes, Crash{Job: i, Err: "start: " + err.Error()})
+					crashes = append(crashes, Crash{Job: i, Err: fmt.Sprint(err), Stderr: tail})
 					mu.Unlock()
-					return
+					p.procs[slot] = nil
+					continue
 				}
-				rd := bufio.NewReaderSize(outp, 1<<20)
-				done := 0
-				for i >= 0 {
-					b, _ := json.Marshal(jobMsg{ID: i, Job: jobs[i]})
-					_, werr := in.Write(append(b, '\n'))
-					var line []byte
-					var rerr error
-					if werr == nil {
-						line, rerr = rd.ReadBytes('\n')
-					}
-					if werr != nil || rerr != nil {
-						in.Close()
-						io.Copy(io.Discard, rd)
-						err := cmd.Wait()
-						tail := stderr.String()
-						if len(tail) > 6000 {
-							tail = tail[len(tail)-6000:]
-						}
-						mu.Lock()
-						crashes = append(crashes, Crash{Job: i, Err: fmt.Sprint(err), Stderr: tail})
-						mu.Unlock()
-						cmd = nil
-						break
-					}
-					var r resMsg
-					if err := json.Unmarshal(line, &r); err != nil || r.ID != i {
-						mu.Lock()
-						crashes = append(crashes, Crash{Job: i, Err: fmt.Sprintf("protocol error: %v: %.200s", err, line)})
-						mu.Unlock()
-					} else {
-						mu.Lock()
-						handle(i, r.Res)
-						mu.Unlock()
-					}
-					done++
-					if p.Recycle > 0 && done >= p.Recycle {
-						break
-					}
-					i = take()
+				var r resMsg
+				if err := json.Unmarshal(line, &r); err != nil || r.ID != i {
+					mu.Lock()
+					crashes = append(crashes, Crash{Job: i, Err: fmt.Sprintf("protocol error: %v: %.200s", err, line)})
+					mu.Unlock()
+				} else {
+					mu.Lock()
+					handle(i, r.Res)
+					mu.Unlock()
 				}
-				if cmd != nil {
-					in.Close()
-					io.Copy(io.Discard, rd)
-					cmd.Wait()
-				}
-				if i < 0 {
-					return
+				wp.done++
+				if p.Recycle > 0 && wp.done >= p.Recycle {
+					wp.stop()
+					p.procs[slot] = nil
 				}
 			}
-		}()
+		}(w)
 	}
 	wg.Wait()
 	return crashes
